@@ -131,6 +131,7 @@ fn main() {
         "gen" => {
             // panics of the code under test are caught per call and logged as data; keep stderr quiet
             std::panic::set_hook(Box::new(|_| {}));
+            util::install_logger();
             // in the checked profile std's unsafe-precondition checks ABORT the process; with the hooks armed the same fault is
             // reported one step earlier as an (unwinding, hence catchable) panic and becomes `res = "panic"` in the event
             if cfg!(debug_assertions) {
@@ -191,6 +192,7 @@ fn main() {
         }
         "replay" => {
             // replay <cases.ndjson> <PROP> --out <dir>
+            util::install_logger();
             let cases = pos.first().expect("cases file").clone();
             let prop = pos.get(1).expect("property id").clone();
             let mut sh = util::Shards::create(&o.out, &format!("{prop}-replay"), o.shards, &build_tag()).expect("create shards");
